@@ -66,6 +66,20 @@ def mk_exc(S, cls, *args):
     return S.interp.models.construct(S.interp, cls, list(args), {})
 
 
+def mk_proof_error(S, reason, origin_id):
+    """What verify_proof's contract says about a failure is its class and its reason code, nothing else: whatever
+    further payload the real constructor accepts (read off its live signature) is unconstrained, so it is given the
+    value that is worst for the gate's obligations - a mapping that names every key of the claims with arbitrary values."""
+    import inspect
+
+    extra = {}
+    for prm in list(inspect.signature(pf.ProofError.__init__).parameters.values())[3:]:  # beyond (self, reason, detail)
+        if prm.kind in (prm.POSITIONAL_OR_KEYWORD, prm.KEYWORD_ONLY) and S.choose(2) == 1:
+            extra[prm.name] = {"verified": S.str(f"exc_{prm.name}_verified"), "proxy": S.str(f"exc_{prm.name}_proxy"), "kid": S.str(f"exc_{prm.name}_kid"), "origin_id": origin_id, "reason": "ok"}
+            S.inputs[f"exc_{prm.name}"] = "claims-like mapping"
+    return S.interp.models.construct(S.interp, pf.ProofError, [reason, "detail"], extra)
+
+
 def inner_claims(S, shape):
     if shape == 0:
         return {}
@@ -331,7 +345,9 @@ def proof_gate_setup(S, mode, header, cache_on):
             vst["claims"] = {"verified": "true", "proxy": S.str("label"), "kid": S.str("kid"), "origin_id": origin_id, "reason": "ok"}
             return vst["claims"]
         S.inputs["verify"] = "rejects"
-        raise PyRaise(mk_exc(S, pf.ProofError, REASONS[S.choose(len(REASONS))], "detail"))
+        reason = REASONS[S.choose(len(REASONS))]
+        S.inputs["reason"] = reason
+        raise PyRaise(mk_proof_error(S, reason, origin_id))
 
     S.handlers["verify_proof"] = verify
     cfg = SObj(pf.ProxyProofConfig, mode=mode, origin_id=S.str("origin_id"), secrets=SObj(None, kind="Secrets"), skew_seconds=S.int("skew"), replay_capacity=S.int("capacity"), enable_replay_cache=cache_on)
@@ -347,6 +363,12 @@ def replay_gate_claims(inputs, ob):
     if inputs.get("verify") == "accepts":
         hdr = pf.mint_proof(secret, "kid1", origin, now=now)
     gate = pf.proxy_proof_gate(pf.ProxyProofConfig(mode=mode, origin_id=origin, secrets={"kid1": (secret, "edge-proxy")}), now=lambda: now)
+    if inputs.get("verify") == "rejects" and inputs.get("reason") == "replayed":
+        hdr = pf.mint_proof(secret, "kid1", origin, now=now)  # a valid proof presented twice: the second is the replay
+        try:
+            gate(_Req(hdr, inputs))
+        except Exception:  # noqa: BLE001
+            pass
     try:
         claims, exc = gate(_Req(hdr, inputs)), None
     except Exception as e:  # noqa: BLE001
